@@ -542,6 +542,9 @@ class ActivityAnalyzer(transformer.Base):
         node.value = self.visit(node.value)
       else:
         node.elt = self.visit(node.elt)
+      # The targets are invisible outside the comprehension, but symbols
+      # generated for the enclosing function are referenced from inside it.
+      self.scope.hidden_names.update(comprehension_.targets)
       return node
 
   def visit_comprehension(self, node):
